@@ -35,9 +35,9 @@ def post_merge(counters, extra):
 
 
 def plan(tier, seed):
-    n = 16 if tier == "quick" else 500
+    n = 16 if tier == "quick" else 1500
     return [{"name": "s%d" % i, "seed": seed, "shard": i, "n_per_class": n, "solve_permuted": tier == "thorough",
-             "n_attain": 16 if tier == "quick" else 200}
+             "n_attain": 16 if tier == "quick" else 400}
             for i in range(NSHARDS)]
 
 
